@@ -73,6 +73,8 @@ SingleScens ==
               SingleScenP(Dev("axle", <<1, 2, 3>>, One, "none"), 3, {1, 2, 3}, {4, 5, 6}),
               SingleScenP(Dev("axle", <<1, 2, 3>>, One, "none"), 3, {1, 2, 3}, {1, 5})}
         ELSE {})
+  \cup (IF "axlebig" \in DevTypes       \* axle sizes 0..8, nothing connected (constructor / scratch-slot clause of C16)
+        THEN {SingleScen(Dev("axle", [i \in 1..k |-> i], One, "none"), k, {}) : k \in 0..8} ELSE {})
   \cup (IF "diff" \in DevTypes
         THEN {SingleScenP(Dev("diff", <<1, 2, 3>>, One, m), 3, c, pre) : m \in Modes,
                   c \in (IF Rich THEN {{1, 2, 3}, {}, {1, 3}} ELSE {{1, 2, 3}}), pre \in {{}, {4, 5, 6}, {1, 2, 6}}}
